@@ -156,6 +156,17 @@ func (eval Evaluator) PartialTracesSum(ctIn *Ciphertext, offset, n int, opOut *C
 
 	params := eval.GetRLWEParameters()
 
+	if params.PCount() == 0 {
+		// The hoisted rotations below need the auxiliary modulus P: without it the same sums
+		// are accumulated with plain automorphisms.
+		return eval.InnerFunction(ctIn, offset, n, func(a, b, c *Ciphertext) (err error) {
+			rQ := params.RingQ().AtLevel(utils.Min(utils.Min(a.Level(), b.Level()), c.Level()))
+			rQ.Add(a.Value[0], b.Value[0], c.Value[0])
+			rQ.Add(a.Value[1], b.Value[1], c.Value[1])
+			return
+		}, opOut)
+	}
+
 	levelQ := ctIn.Level()
 	levelP := params.PCount() - 1
 
